@@ -59,6 +59,7 @@ def run(ctx: Ctx) -> None:
     column_arith(ctx, py, rs)
     windows_and_write_effect(ctx, py, rs)
     front_door_mirrors(ctx, py, rs)
+    pipeline_delivers(ctx, py)
     busy_flag(ctx, py, rs)
     image_renderer(ctx, py)
     storage_shape(ctx, py)
@@ -1008,3 +1009,49 @@ def front_door_mirrors(ctx: Ctx, py: PyProgram, rs: RustProgram) -> None:
                               "(it would clear BUSY on both; the Rust controller returns None)", f"{CW_PY}:{cls.methods['read'].lineno}")
                 break
     ctx.instance("C15.1/front-door-mirror", "mirrored LCD window addresses x {instruction write, data write, read}: controller front door behaves like window base + low nibble", n, 300)
+
+
+def pipeline_delivers(ctx: Ctx, py: PyProgram) -> None:
+    """Every command reaches every selected chip: LCDPipeline._apply_command is interpreted (chips are logging stand-ins) for data and
+    instruction commands x chip selects x column positions incl. the left chip's off-glass columns 56..63 - each selected chip gets
+    exactly one write_data / write_instruction call whatever its column is (a data write that is skipped neither stores nor
+    post-increments: the column stalls and never wraps)."""
+    from ..pyfacts import ClassHost
+    mod = py.module(PL_PY)
+    cls = py.need_cls(mod, "LCDPipeline")
+    ctx.need("_apply_command" in cls.methods, "LCDPipeline._apply_command vanished")
+    hmod = py.module(HD_PY)
+    hev = PyEval(py, hmod)
+    sel = {nm: hev.eval(ast.parse(f"ChipSelect.{nm}", mode="eval").body) for nm in ("BOTH", "LEFT", "RIGHT")}
+    onoff = hev.eval(ast.parse("Instruction.ON_OFF", mode="eval").body)
+    width = 64
+    n = 0
+    for cs_name, want in (("BOTH", {0, 1}), ("LEFT", {0}), ("RIGHT", {1})):
+        for col in (0, 1, 55, 56, 60, 63):
+            for instr in (None, onoff):
+                n += 1
+                log: list = []
+
+                class Chip(_HostObj):
+                    def write_data(self, data: Any, pc_source: Any = None) -> None:
+                        log.append(("data", self.idx))
+                        self.state.y_address = (self.state.y_address + 1) % width
+
+                    def write_instruction(self, i_: Any, d_: Any) -> None:
+                        log.append(("instr", self.idx))
+                chips = [Chip(idx=i, state=_HostObj(y_address=col, page=0), LCD_WIDTH_PIXELS=width) for i in range(2)]
+                me = ClassHost(py, mod, cls, _chips=chips, _dispatch=lambda ev: None)
+                cmd = _HostObj(cs=sel[cs_name], instr=instr, data=0x5A)
+                try:
+                    me._sa_call(cls, cls.methods["_apply_command"], (cmd, 0), {})
+                except NotConst as e:
+                    raise AnalysisError(f"LCDPipeline._apply_command left the evaluable fragment: {e}")
+                kind = "data" if instr is None else "instr"
+                got = sorted(i for k_, i in log if k_ == kind)
+                if got != sorted(want):
+                    ctx.violation("C15.3/pipeline-delivers", key_of(PL_PY, "LCDPipeline._apply_command", f"{kind} command not delivered to every selected chip"),
+                                  f"a {kind} command with chip select {cs_name} and the column pointer at {col} reaches chips {got}, not {sorted(want)}: the skipped chip neither stores the byte nor advances its column "
+                                  "(read-back returns stale data, the two chips fall out of step, the column never wraps)", f"{PL_PY}:{cls.methods['_apply_command'].lineno}")
+                    ctx.instance("C15.3/pipeline-delivers", "commands x chip selects x column positions through LCDPipeline._apply_command (interpreted): one chip call per selected chip", n, 1)
+                    return
+    ctx.instance("C15.3/pipeline-delivers", "commands x chip selects x column positions through LCDPipeline._apply_command (interpreted): one chip call per selected chip", n, 36)
